@@ -291,7 +291,7 @@ def classify(ctx, kind, detail, case):
     """known finding: a twin derived earlier is not kept in sync (only the most recently derived twin receives additions made through key |= x).
     Positively confirmed: the *fresh* twin of the same state matched the projection in the same step (no fresh-twin failure recorded for this case)."""
     if kind == 'held-public-twin-is-stale':
-        unsynced = {'add_subkey', 'del_uid', 'third_party', 'nonexportable', 'lapsed_cert', 'revoke_uid', 'revoke_subkey', 'recertify'}
+        unsynced = {'add_subkey', 'del_uid', 'third_party', 'nonexportable', 'lapsed_cert', 'revoke_uid', 'recertify'}     # (subkey |= x goes through PGPKey.__or__ and IS mirrored: not in this set)
         if unsynced & set(detail.get('ops_since', [])):
             return 'public-twin-held-from-earlier-goes-stale'
     return None
